@@ -130,7 +130,11 @@ class Session:
     step raised (what cli/helper.py does).
     """
 
-    def __init__(self, version: str | None = None, config: Config | None = None) -> None:
+    def __init__(self, version: str | None = None, config: Config | None = None, reset_modules: bool = True) -> None:
+        if reset_modules:
+            from . import modstate
+
+            modstate.reset()  # a fresh gateway starts from import-time module state (see mc/modstate.py)
         self.transport = ScriptTransport()
         self.gateway = Gateway(self.transport, config)
         if version is not None:
